@@ -630,6 +630,12 @@ fn wide_table_case(ctx: &WorkerCtx, rep: &mut WorkerReport, case_seed: u64) {
         }
         trace.push(format!("commit({})", cur + 1));
         cur += 1;
+        // the engine drops its in-memory copies after writing them out: the history rows then stay
+        // on disk until a rollback loads them again (and finds them too old)
+        if rng.chance(3, 4) {
+            t.clear_cache();
+            trace.push("clear_cache".into());
+        }
     }
     // idle blocks, some with a commit: the old rows age out of the window
     let idle = rng.range(9, 14);
@@ -645,6 +651,10 @@ fn wide_table_case(ctx: &WorkerCtx, rep: &mut WorkerReport, case_seed: u64) {
                 fail!("wide-commit-error", "commit returned an error".to_string());
             }
             trace.push(format!("set {} @{}, commit({})", extra, cur, cur + 1));
+            if rng.chance(1, 2) {
+                t.clear_cache();
+                trace.push("clear_cache".into());
+            }
         }
     }
     // two consecutive blocks change a few keys: existing ones (anywhere in key order, in particular
@@ -658,8 +668,15 @@ fn wide_table_case(ctx: &WorkerCtx, rep: &mut WorkerReport, case_seed: u64) {
             touched.push(j * 10 + 5); // a new key right after it
         }
     }
-    for _ in 0..20 {
-        touched.push(rng.below(n) * 10 + if rng.chance(1, 3) { 5 } else { 0 });
+    // every second key on average: wherever an implementation draws a line through the key space (a
+    // page, a batch, a shard), an old row sits next to a freshly changed one
+    for i in 0..n {
+        if rng.chance(1, 2) {
+            touched.push(i * 10);
+        }
+        if rng.chance(1, 20) {
+            touched.push(i * 10 + 5);
+        }
     }
     touched.sort();
     touched.dedup();
